@@ -192,3 +192,39 @@ Qed.
 Corollary go_CommaString_deterministic f r raw ord1 ord2 s : In f obs_fieldlists -> fl_of (r_factory r) = Some f ->
   go_CommaString (mkFlv r (fl_fields (f_map f) raw)) ord1 s = go_CommaString (mkFlv r (fl_fields (f_map f) raw)) ord2 s.
 Proof. intros H1 H2. now rewrite !go_CommaString_spec. Qed.
+
+(* ---- RegisterValues.GetList (C20: one line per register, ordered by non-decreasing sort key) ---- *)
+
+From GV Require Tables.RegList Tables.RegListFacts.
+
+Lemma collect_values (l : list (list byte * (reg * gvalue))) : forall acc s,
+  @range_pairs (list byte) (reg * gvalue) (list (reg * gvalue)) (list (reg * gvalue)) l
+    (fun _ v_v v_list => let v_list := v_list ++ [v_v] in ret (LCont v_list)) acc s
+  = (DVal (LDone (acc ++ map snd l)), s).
+Proof.
+  induction l as [|[k v] r IH]; intros acc s; cbn [range_pairs map snd].
+  - rewrite app_nil_r. reflexivity.
+  - unfold bind at 1. cbv zeta. unfold ret at 1. rewrite IH. rewrite <- app_assoc. reflexivity.
+Qed.
+
+Definition all_values (rv : regvalues) : list (reg * gvalue) :=
+  map snd (rv_numbers rv) ++ map snd (rv_texts rv) ++ map snd (rv_enums rv) ++ map snd (rv_fieldlists rv).
+
+(* for EVERY order in which the four maps are visited the list returned holds every value exactly once and
+   is ordered by non-decreasing sort key (the order among equal keys is the order of the visit) *)
+Theorem go_GetList_spec rv o1 o2 o3 o4 s :
+  exists l, go_GetList rv o1 o2 o3 o4 s = (DVal l, s) /\
+            Permutation (all_values rv) l /\
+            Sorted (GV.Tables.RegListFacts.le_by value_key) l.
+Proof.
+  unfold go_GetList. cbv zeta. unfold range_map.
+  unfold bind at 1. rewrite collect_values. cbn [app].
+  unfold bind at 1. rewrite collect_values.
+  unfold bind at 1. rewrite collect_values.
+  unfold bind at 1. rewrite collect_values.
+  eexists. split; [reflexivity|]. split.
+  - unfold g_sort_values_stable. etransitivity; [|apply GV.Tables.RegListFacts.sort_by_perm].
+    unfold all_values. rewrite <- !app_assoc.
+    repeat apply Permutation_app; apply Permutation_map; symmetry; apply shuffle_perm.
+  - apply GV.Tables.RegListFacts.sort_by_sorted.
+Qed.
